@@ -3,11 +3,18 @@
 package main
 
 import (
+	"encoding/json"
 	"errors"
 	"fmt"
+	"os"
+	"os/exec"
 	"reflect"
 	"strings"
+	"sync"
+	"sync/atomic"
 	"unsafe"
+
+	zs "github.com/evanphx/json-patch/v5/zzvsync"
 
 	v4 "github.com/evanphx/json-patch"
 	v5 "github.com/evanphx/json-patch/v5"
@@ -56,6 +63,7 @@ var apiTexts = map[string]string{
 	"patchOK":  `[{"op":"add","path":"/a/b/-","value":{"v":[null,"<"]}},{"op":"add","path":"/a/b/2/v/-","value":7},{"op":"copy","from":"/a/b/1","path":"/cp"},{"op":"test","path":"/cp","value":{"c":"<x>"}},{"op":"move","from":"/z","path":"/a/n"},{"op":"remove","path":"/k"},{"op":"replace","path":"/a/b/0","value":2}]`,
 	"patchArr": `[{"op":"add","path":"/1/-","value":{"q":1}},{"op":"copy","from":"/0","path":"/-"},{"op":"test","path":"/2","value":"t"}]`,
 	"patchTst": `[{"op":"add","path":"/w","value":1},{"op":"test","path":"/a/n","value":"no"}]`,
+	"patchNeg": `[{"op":"add","path":"/1/-1","value":9},{"op":"remove","path":"/-1"}]`,
 	"patchBad": `[{"op":"add","path":"/w","value":1},`,
 	"patchInv": `[{"op":"add","path":"/w"}]`,
 	"patchObj": `{}`,
@@ -143,6 +151,27 @@ func newAPIWorld() *apiWorld {
 		{"Equal(eqS1,eqS2)", true, func(w *apiWorld) ([]byte, error) { return boolBytes(v5.Equal(B("eqS1"), B("eqS2"))), nil }},
 		{"PtstS.Apply(docS) [failing test]", true, func(w *apiWorld) ([]byte, error) { return w.patches["patchTstS"].Apply(B("docS")) }},
 		{"Ps.Apply(docBad) [malformed]", true, func(w *apiWorld) ([]byte, error) { return w.patches["patchS"].Apply(B("docBad")) }},
+		// package-level defaults are read on every call (never cached): the same calls under changed defaults
+		{"AccumulatedCopySizeLimit=5: P.Apply(docObj)", true, func(w *apiWorld) ([]byte, error) {
+			old := v5.AccumulatedCopySizeLimit
+			v5.AccumulatedCopySizeLimit = 5
+			defer func() { v5.AccumulatedCopySizeLimit = old }()
+			return w.patches["patchOK"].Apply(B("docObj"))
+		}},
+		{"AccumulatedCopySizeLimit=5: P.ApplyIndent(docObj)", true, func(w *apiWorld) ([]byte, error) {
+			old := v5.AccumulatedCopySizeLimit
+			v5.AccumulatedCopySizeLimit = 5
+			defer func() { v5.AccumulatedCopySizeLimit = old }()
+			return w.patches["patchOK"].ApplyIndent(B("docObj"), "  ")
+		}},
+		{"SupportNegativeIndices=false: Pneg.ApplyIndent(docArr)", true, func(w *apiWorld) ([]byte, error) {
+			old := v5.SupportNegativeIndices
+			v5.SupportNegativeIndices = false
+			defer func() { v5.SupportNegativeIndices = old }()
+			return w.patches["patchNeg"].ApplyIndent(B("docArr"), "\t")
+		}},
+		{"Pneg.ApplyIndent(docArr)", true, func(w *apiWorld) ([]byte, error) { return w.patches["patchNeg"].ApplyIndent(B("docArr"), "\t") }},
+		{"Pneg.Apply(docArr)", true, func(w *apiWorld) ([]byte, error) { return w.patches["patchNeg"].Apply(B("docArr")) }},
 		{"legacy Lp.Apply(docObj)", false, func(w *apiWorld) ([]byte, error) { return w.lpatch.Apply(B("docObj")) }},
 		{"legacy MergePatch(docObj,mp1)", false, func(w *apiWorld) ([]byte, error) { return v4.MergePatch(B("docObj"), B("mp1")) }},
 	}
@@ -152,6 +181,55 @@ func newAPIWorld() *apiWorld {
 		}
 	}
 	return w
+}
+
+// soloOutcomes computes, for every call, its outcome in a BRAND-NEW PROCESS (one
+// process per call): the reference "result of the call made alone". State that a
+// call leaves anywhere in the process (not only in the shimmed pools) therefore
+// cannot leak into the reference.
+func (w *apiWorld) soloOutcomes() []string {
+	out := make([]string, len(w.calls))
+	var wg sync.WaitGroup
+	sem := make(chan struct{}, 16)
+	var failed atomic.Value
+	for i := range w.calls {
+		wg.Add(1)
+		go func(i int) {
+			defer wg.Done()
+			sem <- struct{}{}
+			defer func() { <-sem }()
+			cmd := exec.Command(os.Args[0], "solo", fmt.Sprint(i))
+			cmd.Env = append(os.Environ(), "VERIF_SHARD=solo")
+			b, err := cmd.Output()
+			if err != nil {
+				failed.Store(fmt.Sprintf("solo process for call %d (%s) failed: %v", i, w.calls[i].Name, err))
+				return
+			}
+			var s string
+			if err := json.Unmarshal(b, &s); err != nil {
+				failed.Store(fmt.Sprintf("solo process for call %d: bad output %q", i, b))
+				return
+			}
+			out[i] = s
+		}(i)
+	}
+	wg.Wait()
+	if f := failed.Load(); f != nil {
+		fmt.Fprintln(os.Stderr, "harness:", f)
+		os.Exit(2)
+	}
+	return out
+}
+
+func init() {
+	extraCommands["solo"] = func(args []string) {
+		zs.SetController(&seqCtl{})
+		w := newAPIWorld()
+		var i int
+		fmt.Sscanf(args[0], "%d", &i)
+		b, _ := json.Marshal(w.outcome(i))
+		os.Stdout.Write(b)
+	}
 }
 
 func boolBytes(b bool) []byte { return []byte(fmt.Sprint(b)) }
@@ -168,7 +246,7 @@ func decodeOnly(b []byte) ([]byte, error) {
 }
 
 func (w *apiWorld) decodePatches() {
-	for _, k := range []string{"patchOK", "patchArr", "patchTst", "patchS", "patchTstS"} {
+	for _, k := range []string{"patchOK", "patchArr", "patchTst", "patchNeg", "patchS", "patchTstS"} {
 		p, err := v5.DecodePatch([]byte(apiTexts[k])) // from a private copy: the Patch must not alias a shared buffer
 		if err != nil {
 			panic("harness patch " + k + ": " + err.Error())
